@@ -29,7 +29,7 @@ claims = {
          "Assumed: fmt.Sprintf %s semantics for the two String() methods (trusted contracts); MarshalJSON emits one member per element of order (loop shape read, byte-level JSON is encoding/json's). UTF-8/JSON well-formedness and compact == indented are not claimed.",
          "contract-based deductive verification + SMT string lemmas", "DESIGN.md 4.C09"),
  "C11": ("proof",
-         "Partial claim: local rejection contracts, each of the shape 'condition on the pre-state implies an error and every heap location unchanged': duplicate tag / server / macro / user enum / user type, second JSIGHT / INFO / Title / Version / Description-of-info, macro without name or without body, PASTE of an undefined macro; every successful PASTE collects the ENUM rules of the pasted macro again (ghost call counter), so an enum declared twice through PASTE reaches the duplicate check; the same HTTP method on the same path / the same JSON-RPC method twice (AddHTTPMethod, AddJsonRpcMethod), a second Body under one response (AddResponseBody, defect F18 repaired), a PASTE without Name inside a macro body (findPaste); the same URL path twice (addURL: registered path => error, accepted URL registers its path, table insert-only) and two paths that differ only in a parameter name (checkSimilarPaths against the prefix table); a second Query, request Headers or response Headers.",
+         "Partial claim: local rejection contracts, each of the shape 'condition on the pre-state implies an error and every heap location unchanged': duplicate tag / server / macro / user enum / user type, second JSIGHT / INFO / Title / Version / Description-of-info, macro without name or without body, PASTE of an undefined macro; every successful PASTE collects the ENUM rules of the pasted macro again (ghost call counter), so an enum declared twice through PASTE reaches the duplicate check; the same HTTP method on the same path / the same JSON-RPC method twice (AddHTTPMethod, AddJsonRpcMethod), a second Body under one response (AddResponseBody, defect F18 repaired), a PASTE without Name inside a macro body (findPaste); the same URL path twice (addURL: registered path => error, accepted URL registers its path, table insert-only) and two paths that differ only in a parameter name (checkSimilarPaths against the prefix table); a second Query, request Headers or response Headers; BaseUrl for an unknown server or a second BaseUrl; an allOf base that is undefined or not an object.",
          "The remaining adders of setters.go / build_catalog_directives.go (interactions, types, enums, paths) are not yet under contract; 'one injected fault always causes rejection' end-to-end is not claimed.",
          "contract-based deductive verification: conditional frame postconditions (unchanged())", "DESIGN.md 4.C11"),
  "C07": ("proof",
@@ -65,7 +65,7 @@ claims = {
          "NOT claimed: equality of verdict and catalog of two whole documents under the listed rewritings (comments and blank lines between directives, re-indentation, CRLF, quoting, explicit parentheses) - that relates two complete runs and is outside contracts; the lemmas are necessary conditions for it. Assumed: callees are deterministic functions of their arguments and of the listed receiver fields (the lemma itself for step-function callees; an assumption for helpers).",
          "contract-based deductive verification: two-run (product) VCs of each state function + one-run postconditions, go/ssa, z3/cvc5", "DESIGN.md 4.C05"),
  "C02": ("proof",
-         "Contracts on jerr (line/quote arithmetic against a counting specification with the file's own line-end byte, location construction, include-trace append: innermost first, one entry per stack element) discharged for all inputs by SMT with wrap-around machine arithmetic; every error constructor under contract yields an index inside the file it names; an error built from a directive carries that directive's include chain and is located at its own keyword or in its own body (makeError precondition + callers scan); scanProject attaches the chain on every error path; no directive is pending when an included file is entered. Known finding F7 (include-tracer cache keyed by file only).",
+         "Contracts on jerr (line/quote arithmetic against a counting specification with the file's own line-end byte, location construction, include-trace append: innermost first, one entry per stack element) discharged for all inputs by SMT with wrap-around machine arithmetic; every error constructor under contract yields an index inside the file it names; an error built from a directive carries that directive's include chain and is located at its own keyword or in its own body (makeError precondition + callers scan); jerr.NewJApiError is called only by the six declared constructors (callers scan); scanProject attaches the chain on every error path; no directive is pending when an included file is entered. Known finding F7 (include-tracer cache keyed by file only).",
          "Trusted: go/ssa translation, govc VC generator, SMT solvers; assumed contracts listed in evidence.assumptions.",
          "contract-based deductive verification: go/ssa weakest-precondition style VCs discharged by z3/cvc5", "DESIGN.md 4.C02"),
 }
